@@ -2,8 +2,8 @@ SPECIFICATION Spec
 CONSTANTS
   Legacy = FALSE
   Emit = TRUE
-  Light = FALSE
-  MaxR = 3
+  Light = TRUE
+  MaxR = 2
 INVARIANT MImpliesP
 INVARIANT EmitCases
 CHECK_DEADLOCK FALSE
